@@ -45,6 +45,7 @@ structure MItem where
   lastSample : Option Nat      -- last_sample_time
   q : C24.Item                 -- notification queue (value, overflow bit)
   last : Option Nat            -- last_data_value (its value)
+  triggers : List Nat          -- triggered_items (BTreeSet: ascending, unique)
 deriving Repr, DecidableEq
 
 /-- one entry of a data change notification: client handle, value, overflow bit -/
@@ -81,6 +82,7 @@ structure Subn where
   ka : Nat
   firstSent : Bool
   enabled : Bool
+  resend : Bool                      -- resend_data (set by the ResendData method, cleared by every tick)
   seqNext : Nat                      -- sequence_number (Handle.next)
   lastSeq : Nat                      -- last_sequence_number
   nextItemId : Nat
@@ -130,6 +132,11 @@ def lookup (nodes : List (Nat × Nat)) (n : Nat) : Option Nat :=
   | some p => some p.2
   | none => none
 
+/-- A queued notification carries the client handle the item had when the value was sampled (a later
+ModifyMonitoredItems does not rewrite queued notifications).  The C24 queue holds one number per
+sample, so the pair is packed as `value * 2^32 + handle` (client handles are `u32`). -/
+def handleBase : Nat := 2 ^ 32
+
 /-- `check_value` (no filter): (item, changed) -/
 def checkValue (nodes : List (Nat × Nat)) (now : Nat) (resend : Bool) (it : MItem) : MItem × Bool :=
   match lookup nodes it.node with
@@ -137,7 +144,7 @@ def checkValue (nodes : List (Nat × Nat)) (now : Nat) (resend : Bool) (it : MIt
   | some v =>
     let change := resend || (match it.last with | none => true | some l => decide (v ≠ l))
     if change then
-      ({ it with lastSample := some now, last := some v, q := C24.enqueue it.q v }, true)
+      ({ it with lastSample := some now, last := some v, q := C24.enqueue it.q (v * handleBase + it.handle) }, true)
     else ({ it with lastSample := some now }, false)
 
 inductive TickResult where
@@ -162,8 +169,8 @@ def itemTick (nodes : List (Nat × Nat)) (now : Nat) (elapsed resend : Bool) (it
     else (it', .noChange)
   else (it, .noChange)
 
-def entriesOf (handle : Nat) (q : List (Nat × Bool)) : List Entry :=
-  q.map fun p => { handle := handle, value := p.1, overflow := p.2 }
+def entriesOf (_currentHandle : Nat) (q : List (Nat × Bool)) : List Entry :=
+  q.map fun p => { handle := p.1 % handleBase, value := p.1 / handleBase, overflow := p.2 }
 
 /-- the loop of `tick_monitored_items` (no triggering links): items in id order -/
 def tickItems (nodes : List (Nat × Nat)) (now : Nat) (elapsed resend : Bool) :
@@ -179,6 +186,44 @@ def tickItems (nodes : List (Nat × Nat)) (now : Nat) (elapsed resend : Bool) :
       else (it1, [])
     let (rest', es') := tickItems nodes now elapsed resend rest
     (it2 :: rest', es ++ es')
+
+/-- insert into an ascending duplicate-free list (`BTreeSet::insert`) -/
+def insertAsc (x : Nat) : List Nat → List Nat
+  | [] => [x]
+  | y :: ys => if x < y then x :: y :: ys else if x = y then y :: ys else y :: insertAsc x ys
+
+/-- the set of item ids triggered in this tick: the links of every item that reported (Reporting) or
+whose value changed (Sampling), only when the publishing interval elapsed -/
+def triggeredBy (nodes : List (Nat × Nat)) (now : Nat) (elapsed resend : Bool) (items : List MItem) : List Nat :=
+  items.foldl (fun acc it =>
+    let r := (itemTick nodes now elapsed resend it).2
+    if elapsed ∧ (r = .report ∨ r = .valueChanged) then it.triggers.foldl (fun a i => insertAsc i a) acc
+    else acc) []
+
+/-- "Are there any triggered items to force a change on?": a triggered item in Sampling mode is
+checked with the resend flag and hands over its whole queue; other modes and missing items are skipped -/
+def triggerItems (nodes : List (Nat × Nat)) (now : Nat) : List Nat → List MItem → List MItem × List Entry
+  | [], items => (items, [])
+  | i :: ids, items =>
+    match items.find? (fun it => it.id = i) with
+    | some it =>
+      if it.mode = .sampling then
+        let it1 := (checkValue nodes now true it).1
+        let (it2, es) : MItem × List Entry :=
+          match C24.drain it1.q with
+          | (q', some d) => ({ it1 with q := q' }, entriesOf it1.handle d)
+          | (q', none) => ({ it1 with q := q' }, [])
+        let (items', es') := triggerItems nodes now ids (items.map fun t => if t.id = i then it2 else t)
+        (items', es ++ es')
+      else triggerItems nodes now ids items
+    | none => triggerItems nodes now ids items
+
+/-- `tick_monitored_items`: the loop, then the triggered items -/
+def tickAll (nodes : List (Nat × Nat)) (now : Nat) (elapsed resend : Bool) (items : List MItem) :
+    List MItem × List Entry :=
+  let (items1, es1) := tickItems nodes now elapsed resend items
+  let (items2, es2) := triggerItems nodes now (triggeredBy nodes now elapsed resend items) items1
+  (items2, es1 ++ es2)
 
 /-! ### subscription -/
 
@@ -288,11 +333,11 @@ def elapsedStep (now : Nat) (timerTick : Bool) (s : Subn) : Subn × Bool :=
 /-- second part: `tick_monitored_items` and the data change notification built from what the items
 handed over (it takes the next sequence number) -/
 def collectStep (nodes : List (Nat × Nat)) (now : Nat) (elapsed : Bool) (s : Subn) : Subn × Option Msg :=
-  if s.state = .closed ∨ s.state = .creating then (s, none)
+  if s.state = .closed ∨ s.state = .creating then ({ s with resend := false }, none)
   else
-    let (items, es) := tickItems nodes now elapsed false s.items
-    if es.isEmpty then ({ s with items := items }, none)
-    else ({ s with items := items, seqNext := s.seqNext + 1 },
+    let (items, es) := tickAll nodes now elapsed s.resend s.items
+    if es.isEmpty then ({ s with items := items, resend := false }, none)
+    else ({ s with items := items, resend := false, seqNext := s.seqNext + 1 },
           some { seq := s.seqNext, time := now, body := .data es })
 
 /-- `Subscription::tick`; `timerTick = false` is `TickReason::ReceivePublishRequest` -/
@@ -453,7 +498,8 @@ def createSub (ss : Sess) (priority interval ka life : Nat) (enabled : Bool) : S
   let id := ss.nextSubId
   let s : Subn := {
     id := id, priority := priority, interval := interval, maxLife := life, maxKa := ka,
-    state := .creating, life := life, ka := ka, firstSent := false, enabled := enabled, seqNext := 1,
+    state := .creating, life := life, ka := ka, firstSent := false, enabled := enabled, resend := false,
+    seqNext := 1,
     lastSeq := 0, nextItemId := 1, lastElapsed := none, notifs := [], items := [] }
   ({ ss with subs := ss.subs ++ [s], nextSubId := id + 1 }, id)
 
@@ -483,7 +529,8 @@ def createItem (ss : Sess) (maxQ sid handle node qsize : Nat) (discardOldest : B
     else
       let it : MItem := {
         id := s.nextItemId, handle := handle, node := node, mode := mode,
-        sampling := sampling, lastSample := none, q := C24.mk maxQ qsize discardOldest, last := none }
+        sampling := sampling, lastSample := none, q := C24.mk maxQ qsize discardOldest, last := none,
+        triggers := [] }
       let s := { s with items := s.items ++ [it], nextItemId := s.nextItemId + 1 }
       ({ ss with subs := updSub ss.subs s }, .created it.id)
 
@@ -500,6 +547,77 @@ def deleteItem (ss : Sess) (sid iid : Nat) : Sess × DelItemRes :=
     if s.items.any (fun i => i.id = iid) then
       ({ ss with subs := updSub ss.subs { s with items := s.items.filter (fun i => i.id ≠ iid) } }, .good)
     else ({ ss with subs := updSub ss.subs s }, .itemInvalid)
+
+/-- `modify_subscription` with parameters that the server does not revise -/
+def modifySub (ss : Sess) (sid priority interval ka life : Nat) : Sess × Bool :=
+  if hasSub ss.subs sid then
+    ({ ss with subs := ss.subs.map fun s =>
+        if s.id = sid then
+          { s with interval := interval, maxKa := ka, maxLife := life, priority := priority, life := life, ka := ka }
+        else s }, true)
+  else (ss, false)
+
+/-- the ResendData method: `set_resend_data` -/
+def resendData (ss : Sess) (sid : Nat) : Sess × Bool :=
+  if hasSub ss.subs sid then
+    ({ ss with subs := ss.subs.map fun s => if s.id = sid then { s with resend := true } else s }, true)
+  else (ss, false)
+
+inductive ItemOpRes where
+  | good | itemInvalid | subInvalid | panic
+deriving Repr, DecidableEq
+
+/-- `set_monitoring_mode` for one item (no lifetime reset) -/
+def setMode (ss : Sess) (sid iid : Nat) (mode : Mode) : Sess × ItemOpRes :=
+  match getSub ss.subs sid with
+  | none => (ss, .subInvalid)
+  | some s =>
+    if s.items.any (fun i => i.id = iid) then
+      let s' := { s with items := s.items.map fun i => if i.id = iid then { i with mode := mode } else i }
+      ({ ss with subs := updSub ss.subs s' }, .good)
+    else (ss, .itemInvalid)
+
+/-- `modify_monitored_items` for one item (no filter): client handle, sampling interval, queue size and
+discard policy; the queue is resized by the C24 `modify` -/
+def modifyItem (ss : Sess) (maxQ sid iid handle qsize : Nat) (discardOldest : Bool) (sampling : Option Nat) :
+    Sess × ItemOpRes :=
+  match getSub ss.subs sid with
+  | none => (ss, .subInvalid)
+  | some s =>
+    let s := resetLife s
+    match s.items.find? (fun i => i.id = iid) with
+    | none => ({ ss with subs := updSub ss.subs s }, .itemInvalid)
+    | some it =>
+      match C24.modify maxQ it.q qsize discardOldest with
+      | .panic => (ss, .panic)
+      | .ok q' =>
+        let it' := { it with handle := handle, sampling := sampling, q := q' }
+        let s' := { s with items := s.items.map fun i => if i.id = iid then it' else i }
+        ({ ss with subs := updSub ss.subs s' }, .good)
+
+/-- `set_triggering`: per link Good iff the linked item exists and is not the triggering item; removals
+are applied before additions; `none` = the triggering item does not exist (service fault) -/
+def setTriggering (ss : Sess) (sid iid : Nat) (add remove : List Nat) :
+    Sess × Option (Option (List Bool × List Bool)) :=
+  match getSub ss.subs sid with
+  | none => (ss, none)
+  | some s =>
+    let good := fun (i : Nat) => s.items.any (fun t => t.id = i) && decide (i ≠ iid)
+    match s.items.find? (fun i => i.id = iid) with
+    | none => (ss, some none)
+    | some it =>
+      let tr := (it.triggers.filter fun t => !((remove.filter good).contains t))
+      let tr := (add.filter good).foldl (fun a i => insertAsc i a) tr
+      let s' := { s with items := s.items.map fun i => if i.id = iid then { it with triggers := tr } else i }
+      ({ ss with subs := updSub ss.subs s' }, some (some (add.map good, remove.map good)))
+
+/-- test hook `Subscription::verif_set_position`: put the state machine of one subscription into an
+arbitrary position (used by the single-step enumeration of the generator, not an API operation) -/
+def setPosition (ss : Sess) (sid : Nat) (state : SState) (life ka : Nat) (firstSent : Bool) : Sess × Bool :=
+  if hasSub ss.subs sid then
+    ({ ss with subs := ss.subs.map fun s =>
+        if s.id = sid then { s with state := state, life := life, ka := ka, firstSent := firstSent } else s }, true)
+  else (ss, false)
 
 /-- a write to the address space -/
 def write (ss : Sess) (node v : Nat) : Sess :=
